@@ -15,10 +15,13 @@ package dns
 //@   ensures mono: ret1 == nil ==> off <= ret0 && ret0 <= off + 16
 //@   ensures rng: ret1 == nil && off <= len(msg) ==> ret0 <= len(msg)
 //@   writes msg
+// an empty list of character strings takes no room (the len methods count none for it); each string of a
+// non-empty list is bounded by packTxtString's contract
 //@ func packTxt [C01 C08 C16]
 //@   requires 0 <= offset
 //@   ensures mono: ret1 == nil ==> offset <= ret0
 //@   ensures rng: ret1 == nil && offset <= len(msg) ==> ret0 <= len(msg)
+//@   ensures empty: ret1 == nil && len(txt) == 0 ==> ret0 == offset [C08]
 //@   loop 1 invariant old(offset) <= offset && (old(offset) <= len(msg) ==> offset <= len(msg))
 //@   writes msg
 //@ func packStringTxt [C01 C08 C16]
@@ -70,6 +73,9 @@ package dns
 //@   ensures rng: ret1 == nil && off <= len(msg) ==> ret0 <= len(msg)
 //@   loop 1 invariant old(off) <= off && (old(off) <= len(msg) ==> off <= len(msg))
 //@   writes msg
+// "repeated key" is reported only from the second (sorted) pair on, or for the reserved key 65535
+//@   loop 1 invariant sentinel: rangeindex == -1 ==> prev == 65535
+//@   assert at "repeated SVCB keys are not allowed" dup: rangeindex + 1 > 0 || callres("Key") == 65535 [C01]
 //@ func packDataApl [C01 C08 C16]
 //@   requires 0 <= off
 //@   ensures mono: ret1 == nil ==> off <= ret0
